@@ -136,3 +136,11 @@ PROPS["C13"] = dict(streams=["C13"], kernel_cases=0, timeout=600,
     rule="random circles (any centre, radii over all scales, 0..4096 steps) against probe points placed inside, outside, at 1e-4 relative of the radius and in the sliver between the circle and its polygon approximation, and against second circles at controlled centre distances (around the sum and the difference of the radii), different step counts; per case 10 flags: Contains/Intersects of Point and SimplePoint = (distance <= radius) outside the tolerance band, operand order, monotone in the radius, circle-contains-circle only if d + rB <= rA, circle-intersects-circle iff d <= rA + rB, JSON round trip to an identical Circle, polygon approximation closed / centred / rect contains centre; + a sample of point decisions certified by interval arithmetic against the model. non-trivial: all; distinct = distinct case lines",
     trusted_base=GEO_TB, assumptions=["negative, NaN, infinite and larger-than-half-circumference radii are used for serialisation and totality only"],
     partial=["the Circle point test is proved equivalent to 'distance <= radius' over the reals (circle_contains_point_spec); circle-circle tests and the polygon approximation are checked by flags"])
+
+PROPS["C16"] = dict(streams=["C16"], kernel_cases=0, timeout=900, race=True,
+    rule="(translator) every store-like instruction (Store, MapUpdate, append, copy, delete, Send, go, sync calls) of every function reachable from the exported query / serialisation API of the three packages and of the tidwall dependencies they call, classified by the provenance of the written memory; (race detector) a pool of ~70 objects (parsed documents of all kinds under 5 option sets, long indexed rings, a 100-child collection, circles, constructor-built objects) queried by 8 goroutines x 6 rounds x 400 random calls (thorough: 16 x 20 x 3000) of 10 method groups (contains, within, intersects, JSON, rect/center/empty/valid/numpoints, distance, foreach, search/appendjson, string/members, spatial) with every result compared to the result recorded when run alone, under go build -race. non-trivial: all; distinct = distinct (round, worker) lines",
+    trusted_base=["Coq 8.16.1 kernel (vm_compute for the table check)", "the translator tools/effects (go/packages + go/ssa + CHA call graph from golang.org/x/tools v0.29.0; provenance analysis: conservative, what is not proved local is reported shared/unknown; its soundness is trusted, not proved)",
+                  "the reading of the generic theorem onto Go: every Go store-like instruction is an abstract instruction whose destination is private iff the table says local / caller-owned; reads are unrestricted",
+                  "the Go standard library (strconv, math, sort, encoding/binary) is outside the analysed set", "Go's memory model for read-only sharing; the race detector for the observed schedules"],
+    assumptions=["constructors and Parse are excluded (the property starts once they have returned)", "AppendJSON's dst buffer belongs to the caller"],
+    partial=["actual goroutine schedules are observed under the race detector, not enumerated; the theorem covers all schedules of the abstract machine"])
